@@ -88,11 +88,22 @@ CLAIMED = {
              "symbolic term, one prepared Query object re-used on symbolic graphs G1, G2, G1 vs freshly prepared copies, and the same "
              "data in Memory / SimpleMemory / AuditableStore / ReadOnlyGraphAggregate; solution multisets must coincide for every content.",
         ref="DESIGN.md section 3 C15"),
+    "C05": dict(
+        technique="z3 regular-language inclusion between W3C productions and live rdflib regex objects; CrossHair symbolic strings through the term readers/writers",
+        text="Partial claim (term level). Unbounded: 15 language inclusions decided by z3's regex theory for strings of any length - IRIREF, "
+             "STRING_LITERAL_QUOTE, literal with datatype/language, LANGTAG, BLANK_NODE_LABEL, INTEGER/DECIMAL/DOUBLE and their precedence, "
+             "a whole N-Triples line against the token sequence read from parseline's AST, BNode()/URIRef.n3() output within the grammar; "
+             "witnesses are replayed through the real parser. Bounded: nt._quote_encode on every string of length <=3 (thorough 4) is a valid "
+             "STRING_LITERAL_QUOTE decoding to the input; ntriples.unquote and SinkParser.strconst agree with a grammar-derived decoder on "
+             "a<escape>b for symbolic a, b and 8-14 enumerated escapes in all four quoting styles.",
+        note="Trusted base: z3 sequence/regex theory (characters up to U+2FFFF), the ~150-line re-parse-tree translator (unsupported "
+             "constructs make an obligation inconclusive), the transcribed W3C productions, CrossHair's str model, the grammar-derived "
+             "reference decoder. Statement-level grammar, RDF/XML, JSON-LD, TriG, input-source handling are outside the claim.",
+        ref="DESIGN.md section 3 C05"),
 }
 
 NA = {
     "C03": "check not built yet in this commit (planned: engine K term-text kernels)",
-    "C05": "check not built yet in this commit (planned: engines R + K)",
     "C06": "document-level quad round trips run json/expat/regex scanners over text built from term contents; contents cannot be symbolic (C-level str.__new__), leaving only membership booleans = enumeration, not solver-based checking",
     "C07": "check not built yet in this commit (planned: engines K + R, n3 text forms only)",
     "C09": "check not built yet in this commit (planned: engines K + R)",
